@@ -1640,9 +1640,9 @@ def find_tag(v, depth=0):
     return None
 
 
-def build_call_state(eng, K, mode_discr):
+def build_call_state(eng, K, mode_discr, nresp=2):
     """DynCtx over a method table with ONE mentioned method (key0) whose FnMocker has K fully built patterns:
-    symbolic slot ranges, symbolic counters, a 2-segment response chain each (boundary n_k symbolic)."""
+    symbolic slot ranges, symbolic counters, a response chain of nresp (1 or 2) segments each (boundary n_k symbolic)."""
     i_cc = field_index(eng, "CallPattern", "call_counter")
     i_rg = field_index(eng, "CallPattern", "ordered_call_index_range")
     i_rs = field_index(eng, "CallPattern", "responders")
@@ -1657,7 +1657,7 @@ def build_call_state(eng, K, mode_discr):
         rg.fields[(None, 1)] = Cell(Int(eng.named(f"pat{k}.end", 64), 64, False), "usize", f"pat{k}.end")
         cp.fields[(None, i_rg)] = Cell(rg, None, f"pat{k}.range")
         rs = []
-        for j, start in enumerate((z3.BitVecVal(0, 64), eng.named(f"pat{k}.n1", 64))):
+        for j, start in enumerate((z3.BitVecVal(0, 64), eng.named(f"pat{k}.n1", 64))[:nresp]):
             r = Adt("DynCallOrderResponder", None)
             r.fields[(None, field_index(eng, "DynCallOrderResponder", "response_index"))] = Cell(Int(start, 64, False), "usize", "ri")
             rr = Adt("DynResponder", None)
@@ -1820,7 +1820,7 @@ def unit_call_path(eng, tier, prop):
 
 
 # ------------------------------------------------------------------------------------------- C10: interleavings
-def extract_step_program(eng, u, mode, label):
+def extract_step_program(eng, u, mode, label, nresp=2):
     """Run one ACCEPTED call through eval_dyn (everything from MIR) in atomic-trace mode and return its step program:
     [(op, cell, rd_var, operand exprs)], the expression used as response index ('position') and, for ordered calls,
     the expression used as slot index."""
@@ -1856,7 +1856,7 @@ def extract_step_program(eng, u, mode, label):
     eng.atomic_trace = True
     try:
         with opaque_calls(eng, [r"^DynCtx::fn_call$", r"^FnMocker::debug_pattern$", r"^MismatchReporter::new_enabled$", r"^Mismatches::builder$", r"^MismatchesBuilder::"]):
-            ref = build_call_state(eng, 1, mode)
+            ref = build_call_state(eng, 1, mode, nresp)
             paths = u.explore(f, [ref, Ref(Cell(Opaque("dyn Fn", "match_inputs"), None, "match_inputs"))], note=f"[{label}]")
     finally:
         eng.atomic_trace = False
@@ -1872,7 +1872,7 @@ def extract_step_program(eng, u, mode, label):
         slot = [e[1] for e in p.trace if e[0] == "slot"]
         cas = {e[1]: e[2] for e in p.trace if e[0] == "cas_result"}
         steps = [(op, cell, z3.BitVec(str(rd), SCHED_W), tuple(narrow(x, SCHED_W) for x in exprs)) for (op, cell, rd, exprs) in steps]
-        progs.append({"steps": steps, "pos": narrow(pos[0], SCHED_W) if pos else None, "slot": narrow(slot[0], SCHED_W) if slot else None, "pc": list(p.pc), "cas": cas})
+        progs.append({"counted": any(str(c).endswith(".count") and op != "load" for (op, c, _r, _e) in steps), "steps": steps, "pos": narrow(pos[0], SCHED_W) if pos else None, "slot": narrow(slot[0], SCHED_W) if slot else None, "pc": list(p.pc), "cas": cas})
     return progs
 
 
@@ -1965,12 +1965,13 @@ def unit_schedules(eng, tier, prop):
     schedule of T threads x C calls, that positions are pairwise distinct, form a contiguous block and no increment is lost."""
     configs = [(2, 2), (3, 1), (3, 2)] if tier == "quick" else [(2, 2), (2, 3), (3, 2), (4, 2), (3, 3)]
     u = Unit(eng, "schedules", ["DynCtx::eval_dyn (atomic step extraction)", "CallCounter::fetch_add", "SharedState::bump_ordered_call_index", "Owning::into_return_once::{closure}"],
-             f"all sequentially consistent interleavings (symbolic schedule, one order decision per atomic step) of (threads x calls) in {configs} on one shared pattern; step programs and operand expressions are extracted from the 64-bit MIR; in the interleaving model counters are 16-bit wrapping words with arbitrary initial values")
+             f"all sequentially consistent interleavings (symbolic schedule, one order decision per atomic step) of (threads x calls) in {configs} on one shared pattern whose response chain has two segments, and again with a single responder (T*C<=4 in the quick tier); step programs and operand expressions are extracted from the 64-bit MIR; in the interleaving model counters are 16-bit wrapping words with arbitrary initial values")
     ANY = eng.variant_index("PatternMatchMode", "InAnyOrder")
     IN_ORDER = eng.variant_index("PatternMatchMode", "InOrder")
-    for mode, label in ((ANY, "unordered"), (IN_ORDER, "ordered")):
-        progs = extract_step_program(eng, u, mode, label)
-        accepted = [p for p in progs if p["pos"] is not None]
+    for mode, label, nresp in ((ANY, "unordered", 2), (IN_ORDER, "ordered", 2), (ANY, "unordered-single-responder", 1), (IN_ORDER, "ordered-single-responder", 1)):
+        # single-responder patterns are explored separately: a fast path that skips the segment search would only exist there
+        progs = extract_step_program(eng, u, mode, label, nresp)
+        accepted = [p for p in progs if p["pos"] is not None or p["counted"]]
         u.must_be_true(f"C10.{label}-accepted-call-has-one-step-program", len(accepted) >= 1, {"programs": len(progs)})
         if not accepted:
             continue
@@ -1983,9 +1984,9 @@ def unit_schedules(eng, tier, prop):
         pr0 = accepted[0]
         cells = sorted({s[1] for pr in accepted for s in pr["steps"]})
         for (T, C) in configs:
-            if tier == "quick" and label == "ordered" and T * C > 4:
-                continue        # ordered calls have two steps each: 3x2 is left to the thorough tier
-            if label == "ordered" and T * C > 6:
+            if tier == "quick" and (label.startswith("ordered") or nresp == 1) and T * C > 4:
+                continue        # ordered calls have two steps each: 3x2 is left to the thorough tier (so are the single-responder variants)
+            if label.startswith("ordered") and T * C > 6:
                 continue        # measured: the ordered 4x2 / 3x3 queries (16 / 18 atomic steps) do not finish in 1500 s: outside the bound
             init = {c: z3.BitVec(f"init.{c}", SCHED_W) for c in cells}
             import itertools as it_
@@ -2000,15 +2001,16 @@ def unit_schedules(eng, tier, prop):
                 # path conditions of each program instance (e.g. "the CAS succeeded") restrict which schedules are consistent;
                 # a CAS outcome flag must agree with the memory state it saw: encoded as an extra consistency constraint
                 allr = [r for row in res for r in row]
-                positions = [r["pos"] for r in allr]
+                positions = [r["pos"] for r in allr if r["pos"] is not None]      # a call path without segment search has no position
                 ncalls = T * C
                 pcell = [c for c in cells if c.endswith(".count")][0]
                 qn = f"[{label} T={T} C={C} v={combo if len(variants) > 1 else 0}]"
                 u.witness(f"a schedule exists{qn}", cons, logic="QF_BV")
-                u.defer_unsat(f"C10.positions-pairwise-distinct{qn}", cons + [z3.Not(z3.Distinct(positions))], {"T": T, "C": C, "call": label})
-                u.defer_unsat(f"C10.positions-form-a-contiguous-block{qn}", cons + [z3.Not(z3.And([z3.ULT(p_ - init[pcell], ncalls) for p_ in positions]))], {"T": T, "C": C, "call": label})
+                if len(positions) > 1:
+                    u.defer_unsat(f"C10.positions-pairwise-distinct{qn}", cons + [z3.Not(z3.Distinct(positions))], {"T": T, "C": C, "call": label})
+                    u.defer_unsat(f"C10.positions-form-a-contiguous-block{qn}", cons + [z3.Not(z3.And([z3.ULT(p_ - init[pcell], ncalls) for p_ in positions]))], {"T": T, "C": C, "call": label})
                 u.defer_unsat(f"C10.no-increment-lost{qn}", cons + [final[pcell] != init[pcell] + ncalls], {"T": T, "C": C, "call": label})
-                if label == "ordered":
+                if label.startswith("ordered"):
                     slots = [r["slot"] for r in allr]
                     gcell = [c for c in cells if c == "g"][0]
                     u.defer_unsat(f"C10.slots-pairwise-distinct{qn}", cons + [z3.Not(z3.Distinct(slots))], {"T": T, "C": C, "call": label})
@@ -2017,6 +2019,8 @@ def unit_schedules(eng, tier, prop):
                 # program order within a thread: a thread's later call gets a later position
                 for i in range(T):
                     for j in range(C - 1):
+                        if res[i][j]["pos"] is None or res[i][j + 1]["pos"] is None:
+                            continue
                         u.defer_unsat(f"C10.per-thread-order{qn}", cons + [z3.Not(z3.ULT(res[i][j]["pos"] - init[pcell], res[i][j + 1]["pos"] - init[pcell]))])
     u.flush(timeout_s=240 if tier == "quick" else 900, cross=("cvc5", "--lang", "smt2") if tier == "thorough" else None)
     # single-use value: the take() is inside the locked block
